@@ -14,6 +14,7 @@ mod parse;
 mod principal;
 mod prog;
 mod proj;
+mod rnd;
 mod sub;
 mod suite;
 mod text;
@@ -39,6 +40,7 @@ fn main() {
         "parse" => parse::run(&o),
         "prog" => prog::run(&o),
         "principal" => principal::run(&o),
+        "rand" => rnd::run(&o),
         m => { eprintln!("usage: unknown mode {m}"); std::process::exit(2); }
     }
 }
